@@ -208,7 +208,7 @@ def key_contract(kw):
 
 
 for number in (None, 0, 1, 25):
-    for name in (None, "x", "Name.1"):
+    for name in (None, "x", "Name.1", "1abc", "2", "9.x_y", "a_b", "Z9"):
         for ri in (None, 0, 7):
             for re_ in (None, "", "ext-9"):
                 kw = {"number": number, "name": name, "registry_internal": ri, "registry_external": re_}
